@@ -16,7 +16,7 @@ RULE = ("latitudes: every NL transition (both hemispheres) +-{0,1/2,1,3} bins, e
         "dense offsets and a full sweep of every 64th even-lattice latitude bin; distinct = distinct (yz0,xz0,yz1,xz1)")
 ASSUMPTIONS = ["expected position = DO-260B encoder's (Rlat_i, Rlon_i) of the newer frame, tolerance one quantisation "
                "step (Dlat_i/2^17, Dlon_i/2^17) + 1e-9", "None accepted iff reference NL of the two encoded latitudes "
-               "differ (or either is within 1e-9 deg of a transition)", "equal timestamps are not generated"]
+               "differ (or either is within 1e-9 deg of a transition)", "equal timestamps only for identical positions (either frame's carried position accepted)"]
 
 pms = loader.load("P")
 DISP = [(0, 0), (1, 0), (-1, 0), (0, 1), (0, -1), (Fr(1, 2), Fr(1, 2))]
@@ -32,7 +32,7 @@ def judge(p):
         return None if ok else "airborne:raises_or_malformed_at_a_transition_latitude:%s" % (r[1] if r[0] != "ok" else "shape")
     if exp == "RuntimeError":
         return None if r == ("exc", "RuntimeError") else "airborne:same_parity_not_rejected"
-    rlat, rlon, tlat, tlon, none_ok, band = exp
+    rlat, rlon, tlat, tlon, none_ok, band = exp[:6]
     if r[0] != "ok":
         return "airborne:raises:%s:%s" % (r[1], band)
     if r[1] is None:
@@ -40,6 +40,9 @@ def judge(p):
     try:
         lat, lon = r[1]
         ok = abs(lat - rlat) <= tlat + 1e-9 and C.lon_diff(lon, rlon) <= tlon + 1e-9
+        if not ok and len(exp) > 6:
+            o = exp[6]          # equal timestamps, same position: the other frame's carried position is just as good
+            ok = abs(lat - o[0]) <= o[2] + 1e-9 and C.lon_diff(lon, o[1]) <= o[3] + 1e-9
     except Exception:
         return "airborne:bad_shape"
     if not ok:
@@ -126,6 +129,16 @@ def w_lats(arg):
                         s = judge((fn,) + args + (exp,))
                         if s:
                             acc.bad(s, {"p": [fn] + list(args) + [exp], "true": [float(lat), float(lon)], "disp_nm": [float(disp[0]), float(disp[1])]})
+                if disp == (0, 0):
+                    exp = expected(e0, e1, False)
+                    if isinstance(exp, list) and exp[5] != "cross-band":
+                        exp = exp[:5] + [exp[5] + "+equal_timestamps",
+                                         [float(e0["rlat"]), float(e0["rlon"]), float(e0["dlat"]) / 131072, float(e0["dlon"]) / 131072]]
+                        for args in ((m0, m1, 6, 6), (m1, m0, 6, 6)):
+                            acc.n += 1
+                            s = judge(("position",) + args + (exp,))
+                            if s:
+                                acc.bad(s, {"p": ["position"] + list(args) + [exp], "true": [float(lat), float(lon)]})
                 if disp == (0, 0) and k % 7 == 0:
                     for a, b in ((m0, m0), (m1, m1)):
                         acc.n += 1
